@@ -1,5 +1,8 @@
 import AgModel.Proofs.Blockstore
 import AgModel.Proofs.BlockstoreHonest
+import AgModel.Proofs.BlockstoreExactRun
+import AgModel.Proofs.BlockstoreOwn
+import AgModel.Props.C15
 /-!
 # C13 — the blockstore rebuilds exactly the disseminated block, once, and flags bad ones
 -/
@@ -168,21 +171,15 @@ theorem addDissem_good (B : HBlock) (env : Nat → Content) (cap : Nat) (hwf : B
     simp only [hnb, Bool.false_eq_true, if_false]
     exact ⟨⟨rfl, h.1⟩, h.2, trivial, trivial, trivial⟩
 
-/- Full statement (`honest_block_once`): for every block of a correct leader and every delivery that
-   contains at least 32 distinct shreds of every slice: exactly one `FirstShred` (the first event),
-   exactly one `Block` with the leader's hash / parent / transactions, emitted in the step that
-   completes the last missing slice, never `InvalidBlock`, and afterwards every shred, slice root and
-   proof is served and verifies.
-   Proved below: everything except the two *existence* parts — (i) that the `Block` event IS emitted
-   once ≥ 32 shreds of every slice arrived (liveness of reconstruction; needs the exact tracking of
-   which indices are stored per slice), and (ii) that `FirstShred` is not emitted a second time
-   (needs "the shred map never becomes empty again"). Both are checked on the real code by the
-   oracle of `harness/src/bin/c13.rs` (keys `honest-block-once`, `honest-first-shred-once`) and the
-   model agrees with the code on all those runs. -/
+/- `honest_block_once` is proved in two layers. `honest_never_flagged` (safety, from ANY store state that
+   holds only the leader's data): never flagged, only the leader's block, at most once. The exact layer
+   below (`honest_run_exact` … `leader_fast_path_equal`, from a fresh slot): the store and the events
+   are a *function of the set of delivered shreds*, which gives existence, exactly-once, timeliness,
+   order independence and the equality with the leader's own fast path. -/
 
 /-- **A correct leader's block: never flagged, announced at most once, and only as itself**
-    (`honest_block_once`, safety part — for all block shapes and all deliveries).
-    For every delivery `ss` of the leader's shreds into a fresh slot:
+    (`honest_block_once`, safety layer — for all block shapes, all deliveries, all `Good` start states).
+    For every delivery `ss` of the leader's shreds into a store holding only the leader's data:
     * no `InvalidBlock` is ever sent and the slot is never flagged; no shred is answered with
       `Equivocation` / `InvalidShred`, and nothing panics;
     * every `Block` event carries exactly the leader's block: hash = double-Merkle root of the slice
@@ -190,7 +187,7 @@ theorem addDissem_good (B : HBlock) (env : Nat → Content) (cap : Nat) (hwf : B
     * the `Block` event is sent at most once;
     * everything the store holds afterwards (shreds, reconstructed slices, cached commitments, last
       slice index, completed block) is the leader's (`Good`). -/
-theorem honest_block_once_partial (B : HBlock) (env : Nat → Content) (cap : Nat) (hwf : B.WF env cap)
+theorem honest_never_flagged (B : HBlock) (env : Nat → Content) (cap : Nat) (hwf : B.WF env cap)
     (sd : SlotData) (hg : GoodSd B cap sd) (ss : List Shred) (hss : ∀ s ∈ ss, B.Honest s) :
     GoodSd B cap (runDissem env sd ss).1 ∧
     (∀ e ∈ (runDissem env sd ss).2, e = .firstShred ∨ e = .block B.block.info) ∧
@@ -291,6 +288,282 @@ theorem honest_served_is_leaders (B : HBlock) (cap : Nat) (sd : SlotData) (hg : 
     simp only [getLastSliceIndex, hbd, Option.bind_some] at h
     exact hg.2.last l h
 
+/-! ### completeness: the store and the events are a function of the delivered set
+
+`distinctShreds ss i` is the number of distinct shred indices of slice `i` occurring in the delivery `ss`
+(`(List.range TOTAL_SHREDS).countP fun j => ss.any fun s => i == s.slice && j == s.idx`);
+`Enough B ss` says every slice `i < B.n` of the block — including the last-marked one — has at least
+`DATA_SHREDS` (32) distinct shreds in `ss`. The Reed–Solomon law used is `HBlock.WF.envok`: any
+`DATA_SHREDS` of the `TOTAL_SHREDS` shreds of a slice root the leader signed decode to the payload the
+leader encoded (the decoder `env` is a parameter; `exEnv` below is a lawful instance). All theorems are
+for a fresh slot (`SlotData.new`), every well-formed block, every list of the leader's shreds. -/
+
+/-- **Exact run.** After any delivery `ss` of a correct leader's shreds (any order, duplicates, any
+    subset, interleaved across slices) into a fresh slot, the slot's state is the canonical state of
+    the *set* of delivered shreds (never flagged, no repair data), and the events sent to Votor are
+    exactly: `FirstShred` iff something was delivered, then `Block(B)` iff every slice has ≥ 32
+    distinct shreds — nothing else, in this order. -/
+theorem honest_run_exact (B : HBlock) (env : Nat → Content) (cap : Nat) (hwf : B.WF env cap)
+    (ss : List Shred) (hss : ∀ s ∈ ss, B.Honest s) :
+    (runDissem env (SlotData.new cap B.slot) ss).1 = ⟨canon B cap (delivered ss), [], false⟩ ∧
+    (runDissem env (SlotData.new cap B.slot) ss).2 =
+      (if ss = [] then [] else [.firstShred]) ++ (if Enough B ss then [.block B.block.info] else []) :=
+  runDissem_fresh B env cap hwf ss hss
+
+/-- **One step, exactly** (`pre` = what was delivered before, `s` = the shred delivered now): the answer
+    of `add_shred_from_dissemination` and the events it sends. `Duplicate` iff the very shred is stored
+    already or its slice is already decoded; else `FirstShred` iff nothing was delivered before; else
+    `Block(B)` iff now every slice has ≥ 32 distinct shreds; else nothing. -/
+theorem honest_step_exact (B : HBlock) (env : Nat → Content) (cap : Nat) (hwf : B.WF env cap)
+    (pre : List Shred) (s : Shred) (hss : ∀ x ∈ pre ++ [s], B.Honest x) :
+    (addDissem env (runDissem env (SlotData.new cap B.slot) pre).1 s).2.1 =
+      (if delivered pre s.slice s.idx = true ∨ DATA_SHREDS ≤ distinctShreds pre s.slice then .err .duplicate
+       else if pre = [] then .ev .firstShred
+       else if Enough B (pre ++ [s]) then .ev (.block B.block.info) else .none) ∧
+    (addDissem env (runDissem env (SlotData.new cap B.slot) pre).1 s).2.2 =
+      (if pre = [] then [.firstShred]
+       else if ¬ Enough B pre ∧ Enough B (pre ++ [s]) then [.block B.block.info] else []) := by
+  have hpre : ∀ x ∈ pre, B.Honest x := fun x hx => hss x (List.mem_append_left _ hx)
+  have hs : B.Honest s := hss s (by simp)
+  obtain ⟨h1, _, h3, _⟩ := runDissem_exact B env cap hwf pre hpre dnone (SlotData.new cap B.slot) rfl
+    (exact_fresh B env cap hwf)
+  rw [daddAll_none] at h3
+  obtain ⟨_, _, _, r1, r2⟩ := addDissem_exact B env cap hwf (delivered pre) _ s h1 h3 hs
+  have hemp := empty_delivered_iff B pre hpre
+  have hfull : Full B (dadd (delivered pre) s) ↔ Enough B (pre ++ [s]) := by
+    rw [← delivered_append_one]; exact Iff.rfl
+  refine ⟨?_, ?_⟩
+  · rw [r1]
+    unfold resOf distinctShreds
+    by_cases hdup : delivered pre s.slice s.idx = true ∨ DATA_SHREDS ≤ cnt (delivered pre) s.slice
+    · rw [if_pos hdup, if_pos hdup]
+    · rw [if_neg hdup, if_neg hdup, ite_iff hemp, ite_iff hfull]
+  · rw [r2]
+    unfold stepEvents
+    rw [ite_iff hemp]
+    by_cases hnil : pre = []
+    · rw [if_pos hnil, if_pos hnil]
+    · rw [if_neg hnil, if_neg hnil]
+      apply ite_iff
+      rw [hfull]; exact Iff.rfl
+
+/-- **Announced iff enough arrived, exactly once, only as itself** (`honest_block_once`, completeness).
+    For every delivery `ss` — hence for every prefix of every delivery — of a correct leader's shreds:
+    the `Block` event of `B` (hash = double-Merkle root of the slice roots, the leader's parent after
+    the single legal handover, see `HBlock.block`) has been emitted **iff** every slice of `B`
+    (including the last-marked one) has at least `DATA_SHREDS` distinct shreds in `ss`; it is emitted
+    exactly once in that case and no other `Block` event, no `InvalidBlock`, ever; and the block is
+    stored as `completed` iff it was announced. -/
+theorem honest_block_announced_iff (B : HBlock) (env : Nat → Content) (cap : Nat) (hwf : B.WF env cap)
+    (ss : List Shred) (hss : ∀ s ∈ ss, B.Honest s) :
+    (.block B.block.info ∈ (runDissem env (SlotData.new cap B.slot) ss).2 ↔ Enough B ss) ∧
+    (runDissem env (SlotData.new cap B.slot) ss).2.count (.block B.block.info) = (if Enough B ss then 1 else 0) ∧
+    (∀ e ∈ (runDissem env (SlotData.new cap B.slot) ss).2, e = .firstShred ∨ e = .block B.block.info) ∧
+    (runDissem env (SlotData.new cap B.slot) ss).1.dis.completed = (if Enough B ss then some B.block else none) ∧
+    (runDissem env (SlotData.new cap B.slot) ss).1.misbehaved = false := by
+  obtain ⟨h1, h2⟩ := honest_run_exact B env cap hwf ss hss
+  rw [h1, h2]
+  have hnn := not_enough_nil B hwf.npos
+  refine ⟨?_, ?_, ?_, ?_, rfl⟩
+  · by_cases hnil : ss = []
+    · subst hnil; simp [hnn]
+    · by_cases hen : Enough B ss <;> simp [hnil, hen]
+  · by_cases hnil : ss = []
+    · subst hnil; simp [hnn]
+    · by_cases hen : Enough B ss <;> simp [hnil, hen]
+  · intro e he
+    rcases List.mem_append.mp he with he | he
+    · split at he
+      · simp at he
+      · simp at he; exact Or.inl he
+    · split at he
+      · simp at he; exact Or.inr he
+      · simp at he
+  · simp only [canon]
+    exact ite_iff (enough_iff_full B ss).symm _ _
+
+/-- **As soon as possible, never again.** After the deliveries `pre`, the step delivering `s` emits the
+    `Block` event of `B` **iff** `pre` did not yet contain 32 distinct shreds of every slice and
+    `pre ++ [s]` does — i.e. exactly in the step in which, for the first time, every slice (including
+    the last-marked one) has `DATA_SHREDS` distinct shreds; never before, never afterwards; that step's
+    return value is `Ok(Some(Block))`, and a step never emits any other `Block`. -/
+theorem honest_block_timely (B : HBlock) (env : Nat → Content) (cap : Nat) (hwf : B.WF env cap)
+    (pre : List Shred) (s : Shred) (hss : ∀ x ∈ pre ++ [s], B.Honest x) :
+    (.block B.block.info ∈ (addDissem env (runDissem env (SlotData.new cap B.slot) pre).1 s).2.2 ↔
+      (¬ Enough B pre ∧ Enough B (pre ++ [s]))) ∧
+    ((addDissem env (runDissem env (SlotData.new cap B.slot) pre).1 s).2.1 = .ev (.block B.block.info) ↔
+      (¬ Enough B pre ∧ Enough B (pre ++ [s]))) ∧
+    (∀ info, .block info ∈ (addDissem env (runDissem env (SlotData.new cap B.slot) pre).1 s).2.2 →
+      info = B.block.info) := by
+  obtain ⟨r1, r2⟩ := honest_step_exact B env cap hwf pre s hss
+  have hpre : ∀ x ∈ pre, B.Honest x := fun x hx => hss x (List.mem_append_left _ hx)
+  have hs : B.Honest s := hss s (by simp)
+  -- a single shred is never enough
+  have hone : pre = [] → ¬ Enough B (pre ++ [s]) := by
+    intro hnil
+    subst hnil
+    rw [enough_iff_full, delivered_append_one]
+    exact not_full_add_of_empty B _ s hs.1 hs.2.1 (empty_dnone B)
+  -- a duplicate does not change `Enough`
+  have hdup : (delivered pre s.slice s.idx = true ∨ DATA_SHREDS ≤ distinctShreds pre s.slice) →
+      ¬ (¬ Enough B pre ∧ Enough B (pre ++ [s])) := by
+    rintro hd ⟨h1, h2⟩
+    rw [enough_iff_full, delivered_append_one] at h2
+    rcases hd with h | h
+    · rw [dadd_same _ s h] at h2; exact h1 h2
+    · exact h1 ((full_add_of_ge B _ s h).mp h2)
+  have hnotdup : ¬ (delivered pre s.slice s.idx = true ∨ DATA_SHREDS ≤ distinctShreds pre s.slice) → ¬ Enough B pre := by
+    intro hd
+    apply not_full_of_lt B _ s.slice hs.1
+    have : ¬ DATA_SHREDS ≤ cnt (delivered pre) s.slice := fun h => hd (Or.inr h)
+    omega
+  rw [r1, r2]
+  refine ⟨?_, ?_, ?_⟩
+  · by_cases hnil : pre = []
+    · have := hone hnil
+      simp [hnil]
+      intro _; subst hnil; exact this
+    · rw [if_neg hnil]
+      by_cases hc : ¬ Enough B pre ∧ Enough B (pre ++ [s])
+      · simp [hc]
+      · rw [if_neg hc]; simp only [List.not_mem_nil, false_iff]; exact hc
+  · by_cases hd : delivered pre s.slice s.idx = true ∨ DATA_SHREDS ≤ distinctShreds pre s.slice
+    · rw [if_pos hd]
+      constructor
+      · intro h; cases h
+      · intro h; exact absurd h (hdup hd)
+    · rw [if_neg hd]
+      by_cases hnil : pre = []
+      · rw [if_pos hnil]
+        constructor
+        · intro h; cases h
+        · intro h; exact absurd h.2 (hone hnil)
+      · rw [if_neg hnil]
+        by_cases hen : Enough B (pre ++ [s])
+        · rw [if_pos hen]
+          constructor
+          · intro _; exact ⟨hnotdup hd, hen⟩
+          · intro _; rfl
+        · rw [if_neg hen]
+          constructor
+          · intro h; cases h
+          · intro h; exact absurd h.2 hen
+  · intro info hi
+    by_cases hnil : pre = []
+    · rw [if_pos hnil] at hi; simp at hi
+    · rw [if_neg hnil] at hi
+      split at hi
+      · simp at hi; rw [hi]
+      · simp at hi
+
+/-- **`FirstShred` exactly once, in the step of the first accepted shred of the slot.** A step emits
+    `FirstShred` iff nothing was delivered before it (the first shred of a correct leader is always
+    accepted); hence a non-empty delivery contains exactly one `FirstShred`, and it is the first event. -/
+theorem first_shred_once (B : HBlock) (env : Nat → Content) (cap : Nat) (hwf : B.WF env cap) :
+    (∀ (pre : List Shred) (s : Shred), (∀ x ∈ pre ++ [s], B.Honest x) →
+      (.firstShred ∈ (addDissem env (runDissem env (SlotData.new cap B.slot) pre).1 s).2.2 ↔ pre = [])) ∧
+    (∀ (ss : List Shred), (∀ s ∈ ss, B.Honest s) →
+      (runDissem env (SlotData.new cap B.slot) ss).2.count .firstShred = (if ss = [] then 0 else 1) ∧
+      (ss ≠ [] → (runDissem env (SlotData.new cap B.slot) ss).2.head? = some .firstShred)) := by
+  constructor
+  · intro pre s hss
+    rw [(honest_step_exact B env cap hwf pre s hss).2]
+    by_cases hnil : pre = []
+    · simp [hnil]
+    · rw [if_neg hnil]
+      split <;> simp [hnil]
+  · intro ss hss
+    rw [(honest_run_exact B env cap hwf ss hss).2]
+    by_cases hnil : ss = []
+    · subst hnil; simp [not_enough_nil B hwf.npos]
+    · by_cases hen : Enough B ss <;> simp [hnil, hen]
+
+/-- **Order independence.** Two deliveries of a correct leader's shreds that contain the same *set* of
+    shreds (in any orders, with any duplications) end in the same slot state — the same stored block,
+    shreds, slices, cache, marker, Merkle leaves — and send the same events. -/
+theorem delivery_order_independent (B : HBlock) (env : Nat → Content) (cap : Nat) (hwf : B.WF env cap)
+    (ss₁ ss₂ : List Shred) (h₁ : ∀ s ∈ ss₁, B.Honest s) (hset : ∀ s, s ∈ ss₁ ↔ s ∈ ss₂) :
+    runDissem env (SlotData.new cap B.slot) ss₁ = runDissem env (SlotData.new cap B.slot) ss₂ := by
+  have h₂ : ∀ s ∈ ss₂, B.Honest s := fun s hs => h₁ s ((hset s).mpr hs)
+  obtain ⟨a1, a2⟩ := honest_run_exact B env cap hwf ss₁ h₁
+  obtain ⟨b1, b2⟩ := honest_run_exact B env cap hwf ss₂ h₂
+  have hd : delivered ss₁ = delivered ss₂ := delivered_congr ss₁ ss₂ hset
+  have hnil : ss₁ = [] ↔ ss₂ = [] := by
+    constructor
+    · intro h; subst h
+      cases ss₂ with
+      | nil => rfl
+      | cons x r => exact absurd ((hset x).mpr List.mem_cons_self) (by simp)
+    · intro h; subst h
+      cases ss₁ with
+      | nil => rfl
+      | cons x r => exact absurd ((hset x).mp List.mem_cons_self) (by simp)
+  have hen : Enough B ss₁ ↔ Enough B ss₂ := by
+    rw [enough_iff_full, enough_iff_full, hd]
+  apply Prod.ext
+  · rw [a1, b1, hd]
+  · rw [a2, b2, ite_iff hnil, ite_iff hen]
+
+/-- **The leader's fast path stores what a follower reconstructs.** The leader handing its `n` slices,
+    in order, to `add_own_slice` on a fresh slot never panics, and ends in exactly the state — stored
+    block, all shreds, cache, last-slice marker, Merkle leaves — and with exactly the events
+    (`[FirstShred, Block(B)]`) of a follower that was delivered ≥ 32 distinct shreds of every slice in
+    any order. -/
+theorem leader_fast_path_equal (B : HBlock) (env : Nat → Content) (cap : Nat) (hwf : B.WF env cap)
+    (ss : List Shred) (hss : ∀ s ∈ ss, B.Honest s) (hen : Enough B ss) :
+    ownRun B (SlotData.new cap B.slot) (List.range B.n) =
+      ((runDissem env (SlotData.new cap B.slot) ss).1, true, (runDissem env (SlotData.new cap B.slot) ss).2) := by
+  obtain ⟨a1, a2⟩ := honest_run_exact B env cap hwf ss hss
+  have hne : ss ≠ [] := by
+    intro h; subst h
+    exact not_enough_nil B hwf.npos hen
+  rw [ownRun_fresh B env cap hwf, a1, a2, canon_full B cap _ hwf.npos ((enough_iff_full B ss).mp hen),
+    if_neg hne, if_pos hen]
+  rfl
+
+/-- **Afterwards everything is served** (complement of `honest_served_is_leaders`): once ≥ 32 distinct
+    shreds of every slice were delivered, the store serves the block, the slice count, *every* one of
+    the `64·n` shreds (also those never received: the decoder rebuilt them), every slice root, and a
+    double-Merkle proof for every slice, which verifies against the block hash. -/
+theorem honest_serves_everything (B : HBlock) (env : Nat → Content) (cap : Nat) (hwf : B.WF env cap)
+    (ss : List Shred) (hss : ∀ s ∈ ss, B.Honest s) (hen : Enough B ss) (hn : B.n ≤ 2 ^ 32) :
+    let sd := (runDissem env (SlotData.new cap B.slot) ss).1
+    getBlock sd B.block.hash = some B.block ∧ disseminatedHash sd = some B.block.hash ∧
+    getLastSliceIndex sd B.block.hash = some (B.n - 1) ∧
+    (∀ i j, i < B.n → j < TOTAL_SHREDS → getShred sd B.block.hash i j = some (B.shred i j)) ∧
+    (∀ i, i < B.n → getSliceRoot sd B.block.hash i = some (B.root i)) ∧
+    (∀ i, i < B.n → ∃ π, createProof sd B.block.hash i = some (some π) ∧
+      Merkle.checkProof (B.root i) i B.block.hash π = true) := by
+  intro sd
+  have hsd : sd = ⟨canonFull B cap, [], false⟩ := by
+    show (runDissem env (SlotData.new cap B.slot) ss).1 = _
+    rw [(honest_run_exact B env cap hwf ss hss).1, canon_full B cap _ hwf.npos ((enough_iff_full B ss).mp hen)]
+  have hbd : blockData sd B.block.hash = some (canonFull B cap) := by
+    rw [hsd]; simp [blockData, canonFull]
+  have hlen : B.roots.length = B.n := by simp [HBlock.roots]
+  refine ⟨?_, ?_, ?_, ?_, ?_, ?_⟩
+  · simp [getBlock, hbd, canonFull]
+  · rw [hsd]; simp [disseminatedHash, canonFull]
+  · simp [getLastSliceIndex, hbd, canonFull]
+  · intro i j hi hj
+    simp [getShred, hbd, canonFull, hi, hj]
+  · intro i hi
+    have hpres : (present (fun j => if j < TOTAL_SHREDS then some (B.shred i j) else none)).head? = some (B.shred i 0) := by
+      unfold present
+      have : TOTAL_SHREDS = 63 + 1 := by decide
+      rw [this, List.range_succ_eq_map]
+      simp
+    simp [getSliceRoot, hbd, canonFull, hi, hpres]
+    rfl
+  · intro i hi
+    refine ⟨(Merkle.Tree.new B.roots).createProof i, ?_, ?_⟩
+    · simp [createProof, hbd, canonFull, hlen, hi]
+    · have := Merkle.complete B.roots i (by rw [hlen]; exact hi) (by rw [hlen]; exact hn)
+      have hget : B.roots.getD i 0 = B.root i := by
+        simp [HBlock.roots, List.getD, hi]
+      rw [hget] at this
+      exact this
+
 /-! ### non-vacuity and witnesses of the repaired defects -/
 
 /-- a concrete two-slice block of a correct leader in slot 5 with parent (3, #7) -/
@@ -301,8 +574,8 @@ def exB : HBlock :=
 def exEnv : Nat → Content := fun r =>
   if r = 1 then .ok (some (3, 7)) (some [10]) else if r = 2 then .ok none (some [11]) else .bad
 
-/-- the hypotheses of the honest-block theorems are satisfiable -/
-example : exB.WF exEnv 3 :=
+/-- the hypotheses of the honest-block theorems are satisfiable (`exEnv` is a lawful decoder for `exB`) -/
+theorem exB_wf : exB.WF exEnv 3 :=
   { npos := by decide, ncap := by decide, szpos := by intro i; simp [exB],
     envok := by
       intro i hi
@@ -310,6 +583,39 @@ example : exB.WF exEnv 3 :=
       | 0, _ => rfl
       | 1, _ => rfl,
     fold := ⟨(3, 7), rfl, by decide⟩, pslot := by decide }
+
+/-- 63 shreds: all 32 of the last slice first, then 31 of slice 0 — one short -/
+def exPre : List Shred := (List.range 32).map (exB.shred 1) ++ (List.range 31).map (fun j => exB.shred 0 (j + 20))
+
+theorem exPre_honest : ∀ x ∈ exPre ++ [exB.shred 0 5], exB.Honest x := by
+  intro x hx
+  simp only [exPre, List.mem_append, List.mem_map, List.mem_range, List.mem_singleton] at hx
+  have h51 : 51 ≤ TOTAL_SHREDS := by decide
+  rcases hx with (⟨j, hj, rfl⟩ | ⟨j, hj, rfl⟩) | rfl
+  · exact ⟨by show (1 : Nat) < 2; omega, by show j < TOTAL_SHREDS; omega, rfl⟩
+  · exact ⟨by show (0 : Nat) < 2; omega, by show j + 20 < TOTAL_SHREDS; omega, rfl⟩
+  · exact ⟨by decide, by decide, rfl⟩
+
+/-- non-vacuity of `honest_block_timely`: on this delivery the right-hand side holds for the 64th shred
+    (and fails one step earlier), so that very step announces the block -/
+example : ¬ Enough exB exPre ∧ Enough exB (exPre ++ [exB.shred 0 5]) := by decide +kernel
+
+example : .block exB.block.info ∈
+    (addDissem exEnv (runDissem exEnv (SlotData.new 3 5) exPre).1 (exB.shred 0 5)).2.2 :=
+  ((honest_block_timely exB exEnv 3 exB_wf exPre (exB.shred 0 5) exPre_honest).1).mpr (by decide +kernel)
+
+/-- non-vacuity of `delivery_order_independent` / `leader_fast_path_equal`: the reversed delivery with
+    the last shred duplicated ends in the same state with the same events, which are the leader's own -/
+example : runDissem exEnv (SlotData.new 3 5) (exPre ++ [exB.shred 0 5]) =
+    runDissem exEnv (SlotData.new 3 5) (exB.shred 0 5 :: (exPre ++ [exB.shred 0 5]).reverse) :=
+  delivery_order_independent exB exEnv 3 exB_wf _ _ exPre_honest (by intro s; simp; exact or_comm)
+
+example : ownRun exB (SlotData.new 3 5) (List.range 2) =
+    ((runDissem exEnv (SlotData.new 3 5) (exPre ++ [exB.shred 0 5])).1, true, [.firstShred, .block exB.block.info]) := by
+  have hen : Enough exB (exPre ++ [exB.shred 0 5]) := by decide +kernel
+  have h := leader_fast_path_equal exB exEnv 3 exB_wf _ exPre_honest hen
+  rw [(honest_run_exact exB exEnv 3 exB_wf _ exPre_honest).2, if_neg (by simp), if_pos hen] at h
+  exact h
 
 /-- … and a concrete delivery (last slice first, 32 shreds each, then a duplicate) announces the first
     shred and the block exactly once, never an invalid block -/
